@@ -9,8 +9,23 @@ fn main() {
     let seed: u64 = a[2].parse().unwrap();
     let count: u64 = a[3].parse().unwrap();
     let first: u64 = a.get(5).map_or(0, |s| s.parse().unwrap());
-    let f = gen::family(fam);
     let mut w = std::io::BufWriter::new(std::fs::File::create(&a[4]).unwrap());
+    if fam == "table" {
+        // deterministic enumeration; indices past the end produce nothing
+        for i in first..first + count {
+            if let Some(c) = gen::table_case(i) {
+                writeln!(w, "CASE table-{i}").unwrap();
+                for l in c.lines {
+                    writeln!(w, "{l}").unwrap();
+                }
+            }
+        }
+        if a.get(5).is_none() {
+            eprintln!("table size {}", gen::table_size());
+        }
+        return;
+    }
+    let f = gen::family(fam);
     let fh = fam.bytes().fold(7u64, |h, b| h.wrapping_mul(131).wrapping_add(u64::from(b)));
     for i in first..first + count {
         let mut r = Rng::new(seed.wrapping_mul(1_000_003).wrapping_add(i).wrapping_add(fh << 40));
